@@ -11,7 +11,10 @@ import (
 // Node returns the node with the given ID if it exists
 // in the graph, and nil otherwise.
 func (n *Network) Node(id int64) graph.Node {
-	return n.nodeWithID(id)
+	if node := n.nodeWithID(id); node != nil {
+		return node
+	}
+	return nil
 }
 
 // Nodes returns all the nodes in the graph.
@@ -65,7 +68,10 @@ func (n *Network) HasEdgeBetween(xid, yid int64) bool {
 // must be directly reachable from u as defined by the
 // From method.
 func (n *Network) Edge(uid, vid int64) graph.Edge {
-	return n.edgeBetween(uid, vid, true)
+	if edge := n.edgeBetween(uid, vid, true); edge != nil {
+		return edge
+	}
+	return nil
 }
 
 // the Gonum graph.Weighted
@@ -76,7 +82,10 @@ func (n *Network) Edge(uid, vid int64) graph.Edge {
 // nil otherwise. The node v must be directly
 // reachable from u as defined by the From method.
 func (n *Network) WeightedEdge(uid, vid int64) graph.WeightedEdge {
-	return n.edgeBetween(uid, vid, true)
+	if edge := n.edgeBetween(uid, vid, true); edge != nil {
+		return edge
+	}
+	return nil
 }
 
 // Weight returns the weight for the edge between
